@@ -1734,6 +1734,11 @@ func (n *node) spawn(factory gen.ProcessFactory, options gen.ProcessOptionsExtra
 		n.targetManager.AddLink(p.pid, p.parent)
 	}
 
+	if options.LinkChild && p.parent != n.corePID {
+		// create the link before the process is able to run (and to terminate)
+		n.targetManager.AddLink(p.parent, p.pid)
+	}
+
 	// register process and switch it to the sleep state
 	p.state = int32(gen.ProcessStateSleep)
 	n.processes.Store(p.pid, p)
